@@ -591,6 +591,97 @@ def _interleave(self, specs, sched):
 Impl.interleave = lambda self, specs, sched: self.call(lambda: _interleave(self, specs, sched))
 
 
+def _ro_make(t, sp, it):
+    """a read-only request of the public API, as a generator (it=True) or answered at once (it=False)"""
+    k = sp[0]
+    if k == "pages":
+        return t.get_webentity_pages_iter(sp[1], list(sp[2])) if it else t.get_webentity_pages(sp[1], list(sp[2]))
+    if k == "crawled":
+        return t.get_webentity_crawled_pages_iter(sp[1], list(sp[2])) if it else t.get_webentity_crawled_pages(sp[1], list(sp[2]))
+    if k == "most":
+        f = t.get_webentity_most_linked_pages_iter if it else t.get_webentity_most_linked_pages
+        return f(sp[1], list(sp[2]), pages_count=sp[3], max_depth=sp[4])
+    if k == "children":
+        f = t.get_webentity_child_webentities_iter if it else t.get_webentity_child_webentities
+        return f(sp[1], list(sp[2]))
+    if k == "plinks":
+        f = t.get_webentity_pagelinks_iter if it else t.get_webentity_pagelinks
+        return f(sp[1], list(sp[2]), include_inbound=bool(sp[3]), include_internal=bool(sp[4]), include_outbound=bool(sp[5]))
+    if k == "outlinks":
+        return t.get_webentity_outlinks_iter(sp[1], list(sp[2])) if it else t.get_webentity_outlinks(sp[1], list(sp[2]))
+    if k == "inlinks":
+        return t.get_webentity_inlinks_iter(sp[1], list(sp[2])) if it else t.get_webentity_inlinks(sp[1], list(sp[2]))
+    if k == "net":
+        f = t.get_webentities_links_iter if it else t.get_webentities_links
+        return f(out=bool(sp[1]), include_auto=bool(sp[2]))
+    if k == "netslow":
+        f = t.get_webentities_links_slow_iter if it else t.get_webentities_links_slow
+        return f(out=bool(sp[1]), include_auto=bool(sp[2]))
+    raise KeyError(k)
+
+
+def _ro_canon(sp, r):
+    k = sp[0]
+    if k in ("pages", "crawled"):
+        return [(p["lru"], bool(p["crawled"])) for p in r]
+    if k == "most":
+        return [(p["lru"], p["indegree"]) for p in r]
+    if k in ("children", "outlinks", "inlinks"):
+        return sorted(x if x is not None else 0 for x in r)
+    if k == "plinks":
+        return [tuple(x) for x in r]
+    return sorted((a, str(b), v) for a, c in r.items() for b, v in c.items())
+
+
+def _interleave_ro(self, specs, sched):
+    """read-only requests advanced in turns (every loop iteration a yield point): nothing writes, so each must answer
+    exactly what it answers when run alone.  Returns (interleaved answers, answers alone), canonical, None for a refusal."""
+    TIS = sys.modules["traph.traph_iterator_state"].TraphIteratorState
+    TE = self.traph_mod.TraphException
+    t = self.t
+    alone = []
+    for sp in specs:
+        try:
+            alone.append(_ro_canon(sp, _ro_make(t, sp, False)))
+        except TE:
+            alone.append(None)
+    orig = TIS.should_yield
+
+    def always(self_, yield_frequency=1000):
+        self_.n_iterations += 1
+        return True
+    TIS.should_yield = always
+    try:
+        gens = [_ro_make(t, sp, True) for sp in specs]
+        res, done = [None] * len(gens), [False] * len(gens)
+
+        def advance(i):
+            if done[i]:
+                return
+            try:
+                st = next(gens[i])
+                if st.done:
+                    done[i], res[i] = True, _ro_canon(specs[i], st.result)
+            except StopIteration:
+                done[i] = True
+            except TE:
+                done[i] = True
+        for i in sched:
+            if 0 <= i < len(gens):
+                advance(i)
+        for i in range(len(gens)):
+            guard = 0
+            while not done[i] and guard < 100000:
+                advance(i)
+                guard += 1
+        return res, alone
+    finally:
+        TIS.should_yield = orig
+
+
+Impl.interleave_ro = lambda self, specs, sched: self.call(lambda: _interleave_ro(self, specs, sched))
+
+
 # ---- generic syntax (shared with ocaml/driver.ml) -------------------------------------
 def fmt(a):
     if a is REFUSED:
